@@ -84,6 +84,10 @@ def _cases(tier):
     out.append(("timeline_ends_after_the_last_measure", mk(tss=[(0, 4, 4)], measures=[(0, 16), (16, 32), (32, 48)], note=(44, 52))))
     out.append(("clef_change_at_the_last_time_point", mk(tss=[(0, 4, 4)], clefs=[(0, 1, "G", 2, 0), (32, 1, "F", 4, 0)], measures=[(0, 16), (16, 32)], note=(0, 32))))
     out.append(("only_clef_of_staff_2_at_the_last_time_point", mk(tss=[(0, 4, 4)], clefs=[(0, 1, "G", 2, 0), (32, 2, "F", 4, 0)], measures=[(0, 16), (16, 32)], note=(0, 32), staves=2)))
+    # the less common clef signs (their codes are documented: G 0, F 1, C 2, percussion 3, TAB 4, jianpu 5, none 6), the highest staff holding
+    # nothing but its clef (a tacet pedal staff)
+    out.append(("tablature_and_jianpu_clefs_third_staff_with_a_clef_only", mk(tss=[(0, 4, 4)], clefs=[(0, 1, "G", 2, 0), (0, 2, "TAB", 5, 0), (0, 3, "jianpu", 1, 0), (16, 1, "percussion", 2, 0), (16, 3, "none", 1, 0)],
+                                                                              measures=[(0, 16), (16, 32)], note=(0, 32), staves=2)))
     out.append(("key_signature_with_mode_none", mk(tss=[(0, 4, 4)], kss=[(0, -7, "none"), (16, 3, "none")], measures=[(0, 16), (16, 32)], note=(0, 32))))
     out.append(("three_changes", mk(tss=[(0, 4, 4), (16, 6, 8), (28, 2, 2)], kss=[(0, 0, "major"), (16, 7, "major"), (28, -7, "minor")],
                                   clefs=[(0, 1, "G", 2, 0), (16, 1, "C", 3, 0), (20, 1, "G", 2, -1)], measures=[(0, 16), (16, 28), (28, 44)], note=(0, 44))))
